@@ -385,7 +385,12 @@ def monitorOp (prop : String) (seen : Seen) (v : OpView) (next : Option OpView) 
   | "C13" =>
     let conn := st.getD 1 "0" = "1"
     -- a 421 among the replies a call returned (greeting, completion reply, reply to ABOR, ...): not connected afterwards
+    let ctlOpen : Option Bool := (findTok impl "cs:").map (fun t => t == "cs:1")
     if returned && ((retReplies ret).getD []).any (fun r => r.startsWith "421:") && conn then some "connected-after-421"
+    -- after a non-graceful disconnect (returned or thrown), after a graceful one that returned, and whenever the client reports
+    -- not connected: no control socket is held
+    else if ((op.name = "disc" && (returned || op.args.getD 0 "" != "1")) || !conn) && ctlOpen = some true && !noCtl then
+      some "control-socket-held-while-not-connected"
     else if op.name = "disc" then
       (if returned && conn then some "connected-after-disconnect"
        else if op.args.getD 0 "" != "1" && !writes.isEmpty then some "nongraceful-disconnect-sent-a-command"
@@ -429,7 +434,13 @@ def monitorOp (prop : String) (seen : Seen) (v : OpView) (next : Option OpView) 
       let bad := impl.zipIdx.any fun (t, i) =>
         t.startsWith "w:" && !obs.isEmpty && !((impl.getD (i - 1) "").startsWith s!"o{obs.getLast?.getD 0}:q:")
       if bad then some "request-not-announced-before-write" else none
-  | "C17" => if fds != 0 then some "data-descriptor-left-open" else none
+  | "C17" =>
+    -- no data / listening descriptor survives a call; the control socket is held exactly while the client reports connected
+    let conn : Bool := st.getD 1 "0" == "1"
+    let ctlOpen : Option Bool := (findTok impl "cs:").map (fun t => t == "cs:1")
+    if fds != 0 then some "data-descriptor-left-open"
+    else if !noCtl && ctlOpen.isSome && ctlOpen != some conn then some "control-socket-state-differs-from-is-connected"
+    else none
   | _ => none
 
 def monitorAll (prop : String) : Seen → List OpView → Option String
